@@ -45,6 +45,8 @@ class Verifier(Stmts):
         self.spec_globals = {'ZERO32': bytes(32)}
         from .engine import EMPTY_MAP
         self.spec_globals['EMPTY_UTXO'] = EMPTY_MAP
+        self.spec_globals['EMPTY_MAP'] = EMPTY_MAP
+        self.spec_globals['INTS'] = 'ALL-INTS'
         for ci in registry.classes.values():
             self.spec_globals[ci.name] = ci.pyclass
         for pyc, rn in registry.abstract.items():
@@ -403,6 +405,11 @@ class Verifier(Stmts):
             env = self.with_lets(con, sub, {})
             for lname, _t in con.lets:
                 sub.frame.vars[lname] = env[lname]
+            if con.uf_name:
+                rty = con.returns_type
+                if rty is None and node.returns is not None:
+                    rty = from_annotation(ast.unparse(node.returns), self.reg, func.__globals__)
+                env = dict(env, result=self.uf_result(con, rty, vals, node, sub))
             pre = [self.spec_bool(t, sub, env) for t in con.requires_]
             pred = self.predicate_term(con, vals, sub) if con.predicate_ else z3.BoolVal(True)
             facts = [self.b(self.spec_bool(t, sub, env)) for t in con.ensures_]
